@@ -510,6 +510,16 @@ func condAtomsOfExpr(a *Atoms) []string {
 		}
 		out = append(out, "call:"+cl)
 	}
+	for l := range a.Lits {
+		if strings.HasPrefix(l, "\"") && len(l) > 2 {
+			out = append(out, "lit:"+l)
+		}
+	}
+	for id := range a.Idents {
+		if strings.HasPrefix(id, "global:") {
+			out = append(out, id)
+		}
+	}
 	sort.Strings(out)
 	return out
 }
@@ -519,38 +529,11 @@ func (w *World) condAtomsOfFunc(fi *FuncInfo) []string {
 	if fi.Decl.Body == nil {
 		return nil
 	}
-	addExpr := func(e ast.Expr) {
-		if e == nil {
-			return
-		}
-		for _, k := range condAtomsOfExpr(w.exprAtoms(fi, e)) {
+	for _, e := range branchConds(fi) {
+		for _, k := range condAtomsOfExpr(w.exprAtomsDeep(fi, e)) {
 			set[k] = true
 		}
 	}
-	ast.Inspect(fi.Decl.Body, func(n ast.Node) bool {
-		switch x := n.(type) {
-		case *ast.IfStmt:
-			addExpr(x.Cond)
-		case *ast.ForStmt:
-			addExpr(x.Cond)
-		case *ast.SwitchStmt:
-			addExpr(x.Tag)
-		case *ast.CaseClause:
-			for _, e := range x.List {
-				if _, isType := fi.Pkg.TypesInfo.Types[e]; isType && fi.Pkg.TypesInfo.Types[e].IsType() {
-					continue
-				}
-				addExpr(e)
-			}
-		case *ast.TypeSwitchStmt:
-			if as, ok := x.Assign.(*ast.AssignStmt); ok && len(as.Rhs) == 1 {
-				addExpr(as.Rhs[0])
-			} else if es, ok := x.Assign.(*ast.ExprStmt); ok {
-				addExpr(es.X)
-			}
-		}
-		return true
-	})
 	return keys(set)
 }
 
